@@ -17,8 +17,8 @@ import (
 
 func init() {
 	register(&Check{
-		ID:   "C02",
-		Rule: "every lunar month of every year table 1645..3000 (each lunation seen in up to two tables): (a) first day = UTC+8 civil day of R3's new moon, undecided when R3's instant is within the era margin of midnight (25 min 1645-1928, 5 min + delta-T spread from 1929); (b1) for every lunar year 1929..3000 the leap rule evaluated on the library's own term days and month starts reproduces numbering and leap placement (no margin); (b2) the same rule evaluated on R3's new-moon and major-term days (year undecided when an R3 event lies within its margin of midnight) equals GetLeapMonth / month numbers / first days, and Solar.GetLunar on every first day; (c) ICU's Chinese calendar 1900..2100 month by month, a disagreement tolerated only when R3 puts the responsible event within 30 min of midnight. non-trivial = leap years, months whose new moon is within 2 h of midnight, years with 13 lunations between solstice months",
+		ID:     "C02",
+		Rule:   "every lunar month of every year table 1645..3000 (each lunation seen in up to two tables): (a) first day = UTC+8 civil day of R3's new moon, undecided when R3's instant is within the era margin of midnight (25 min 1645-1928, 5 min + delta-T spread from 1929); (b1) for every lunar year 1929..3000 the leap rule evaluated on the library's own term days and month starts reproduces numbering and leap placement (no margin); (b2) the same rule evaluated on R3's new-moon and major-term days (year undecided when an R3 event lies within its margin of midnight) equals GetLeapMonth / month numbers / first days, and Solar.GetLunar on every first day; (c) ICU's Chinese calendar 1900..2100 month by month, a disagreement tolerated only when R3 puts the responsible event within 30 min of midnight. non-trivial = leap years, months whose new moon is within 2 h of midnight, years with 13 lunations between solstice months",
 		Assume: []string{"R3 = Meeus ch.49/25 + Espenak-Meeus delta-T (self-tested at start-up: new moons to ~1 min, sun to ~15 min)", "era margins fixed from first principles (Beijing local mean time UTC+7:45:40 before 1929 + period ephemeris error), not from the library's output", "ICU leg depends on the system ICU library; skipped with a note when the dump is unavailable"},
 		Shards: func(tier string, seed int64) []Shard {
 			sh := splitRanges([][2]int{{1645, 3000}}, 16, Shard{Kind: "astro", Tier: tier, Seed: seed})
